@@ -58,3 +58,73 @@ inductive Ev where
 deriving Repr, DecidableEq
 
 end Rpgp
+
+namespace Rpgp
+
+/-! ## sources that can fail -/
+
+/-- result of one `read` on a faulty source -/
+inductive RdRes where
+  | bytes (bs : Bytes)     -- `Ok(n)`, n = bs.length (0 = EOF)
+  | fail                   -- `Err(_)`
+deriving Repr, DecidableEq
+
+/-- one `read(buf)` with `buf.len() = n` on an event source: data events behave like chunks,
+an `err` event makes this call fail and is consumed (one-shot fault) -/
+def evRead : List Ev → Nat → RdRes × List Ev
+  | [], _ => (.bytes [], [])
+  | .err :: es, _ => (.fail, es)
+  | .data c :: es, n =>
+    if c.length ≤ n then (.bytes c, es) else (.bytes (c.take n), .data (c.drop n) :: es)
+
+/-- `util::fill_buffer` over a faulty source: `none` = the error was propagated (`?`) -/
+def fillBufferEv : Nat → List Ev → Nat → Option (Bytes × List Ev)
+  | 0, src, _ => some ([], src)
+  | fuel + 1, src, n =>
+    if n = 0 then some ([], src) else
+    match evRead src n with
+    | (.fail, _) => none
+    | (.bytes got, src') =>
+      if got.isEmpty then some ([], src')
+      else
+        match fillBufferEv fuel src' (n - got.length) with
+        | none => none
+        | some (more, src'') => some (got ++ more, src'')
+
+/-- bytes carried by the events before the first `err` -/
+def evPrefix : List Ev → Bytes
+  | [] => []
+  | .err :: _ => []
+  | .data c :: es => c ++ evPrefix es
+
+def evHasErr : List Ev → Bool
+  | [] => false
+  | .err :: _ => true
+  | .data _ :: es => evHasErr es
+
+/-- a buffered producer whose refills may fail: the consumer drains until a 0-byte read or an
+error; returns (bytes obtained, `some true` = clean EOF, `some false` = error, `none` = the request
+schedule ended first) -/
+def bpDrainF : Bytes → List (Option Bytes) → List Nat → Bytes × Option Bool
+  | _, _, [] => ([], none)
+  | [], [], _ :: _ => ([], some true)
+  | [], none :: _, _ :: _ => ([], some false)
+  | [], some b :: bs, n :: reqs =>
+    if (b.take n).isEmpty then ([], some true)
+    else
+      let (rest, st) := bpDrainF (b.drop n) bs reqs
+      (b.take n ++ rest, st)
+  | x :: buf, bs, n :: reqs =>
+    if ((x :: buf).take n).isEmpty then ([], some true)
+    else
+      let (rest, st) := bpDrainF ((x :: buf).drop n) bs reqs
+      ((x :: buf).take n ++ rest, st)
+
+/-- the layout the CFB `StreamEncryptor` hands out as successive blocks (`crypto/sym/encryptor.rs`
+state machine Prefix → Data → Mdc → Done): the prefix, the plaintext in `B`-byte buffers, the MDC.
+(Encryption is a stream operation applied position-wise and does not change the block sizes.) -/
+def cfbEncBlocks (B : Nat) (pre pt mdc : Bytes) : List Bytes :=
+  [pre] ++ (if B = 0 then [] else
+    (List.range ((pt.length + B - 1) / B)).map fun i => (pt.drop (i * B)).take B) ++ [mdc]
+
+end Rpgp
